@@ -13,18 +13,20 @@
 (*           alive (only where the server detaches prepared branches, >= 8.0.29)                       *)
 (*   ver     server version: prepared branch attached to its connection (8.0.28) | detached (8.0.30)  *)
 (*   reuse   1: the pooled connection has served a complete XA transaction before;                    *)
+(*           3: the pooled connection has rolled a branch back in phase one before (failed statement); *)
 (*           2: another global transaction runs its phase one on the pool between this branch's       *)
 (*              phase one and its phase two (its own statements are not part of the trace)            *)
 EXTENDS Integers, Sequences, TLC, IOUtils
 
 Scen == {s \in [kind : {"ins", "upd", "del", "sel"}, mode : {"auto", "explicit"}, reg : {"ok", "fail", "neterr"},
                failAt : 0..8, p2 : {"commit", "rollback"}, how : {"once", "dup", "retry", "restart", "other"},
-               ver : {"8.0.28", "8.0.30"}, reuse : {0, 1, 2}] :
+               ver : {"8.0.28", "8.0.30"}, reuse : {0, 1, 2, 3}] :
            /\ s.reg # "ok" => (s.failAt = 0 /\ s.p2 = "rollback" /\ s.how = "once" /\ s.reuse = 0)
            /\ s.how = "other" => s.ver = "8.0.30"
            /\ s.failAt >= 5 => s.how = "once"
            /\ s.reuse = 1 => (s.how = "once" /\ s.failAt \in {0, 2})
-           /\ s.reuse = 2 => (s.how \in {"once", "dup"} /\ s.failAt = 0)}
+           /\ s.reuse = 2 => (s.how \in {"once", "dup"} /\ s.failAt = 0)
+           /\ s.reuse = 3 => (s.how = "once" /\ s.failAt \in {0, 2, 3, 4})}
 
 \* the slow leg: the business statement takes longer than the configured branch execution timeout
 \* (xa_branch_execution_timeout); the client must then end the branch, roll it back and return an error
